@@ -166,6 +166,12 @@ class SlotGraphView(Obj):
         ctx.write(Loc((k.g.oid, "stops")), ctx.store[(k.g.oid, "stops")] + 1)
         return VOID
 
+    def m_next_scheduled_time(self, I, args, n):
+        """the branch graph's wake-up cache: any time at all (reading it evaluates nothing and hands nothing to this node)"""
+        t = I.ctx.fresh("child_next_scheduled_time")
+        I.ctx.assume(t >= 0)
+        return t
+
     def m_evaluate(self, I, args, n):
         ctx = I.ctx
         k = self.k
@@ -460,6 +466,7 @@ class ActivateBranch(SwitchKernel):
 
 class SwitchEvaluate(SwitchKernel):
     name = "switch_node.cpp:switch_evaluate"
+    property_ids = ("C12", "C02")
     fn_name = "switch_evaluate"
     filter = "switch_evaluate"
     sig = "bool (const hgraph::NodeView &, hgraph::DateTime)"
@@ -524,7 +531,8 @@ class SwitchEvaluate(SwitchKernel):
         ctx.oblige("ensures.activated-with-the-selected-spec-and-key", z3.Implies(change, z3.And(
             z3.Not(self.sel_null), self.gg(ctx, "act_sid") == self.sel_sid, self.gg(ctx, "act_key") == self.key)), kind="post-normal")
         act = self.opt(ctx, "active_slot")
-        ctx.oblige("ensures.active-graph-evaluated-once,nothing-else[C12]",
+        ctx.oblige("ensures.active-graph-evaluated-once,nothing-else[C12; C02 the branch's evaluate is what hands its next wake-up to "
+                   "the switch node: whenever the node runs, the active branch runs]",
                    self.gg(ctx, "evals") == z3.If(z3.And(self.started, act.has), 1, 0), kind="post-normal")
         ctx.oblige("ensures.not-started=>nothing", z3.Implies(z3.Not(self.started), z3.And(
             self.gg(ctx, "activations") == 0, self.gg(ctx, "evals") == 0, ret)), kind="post-normal")
